@@ -13,7 +13,7 @@ use neurons::tensor::Tensor;
 pub fn meta(ctx: &Ctx) -> Meta {
     let e = max_epochs(ctx);
     Meta {
-        rule: format!("every validation-loss trajectory in {{rise,fall,equal}}^(E-1) for epoch budgets E in 1..{} x every tolerance T in 1..5, plus tolerances 6..12, 16, 20 with budgets T+1, T+2, T+4 on all trajectories with at most two non-rise events, with validation data (also with print frequencies 1, 2 and beyond the budget on a third of them, a quarter each after an earlier learn() call on the same network without / with validation data (which leaves the weights untouched), a third of them at a tiny scale: loss 2^-20 moving in steps of 2^-27, and a third at a large offset: loss 2^20 moving by one unit in the last place per epoch); every E in 1..{} without; the unmodified learn() is driven through each of them and the commanded pattern is re-derived from the returned vector (only matching runs count). Oracle over what learn() returned: len(train)=n; len(val_loss)=len(val_acc)=n (0 and n=E without validation data); stop(e) := e>T and the last T recorded losses strictly increasing is false for every e<n; if n<E then stop(n). States = (epoch, pattern prefix) pairs visited; transitions = epochs run; non-trivial = trajectories with at least one rise", e, e),
+        rule: format!("every validation-loss trajectory in {{rise,fall,equal}}^(E-1) for epoch budgets E in 1..{} x every tolerance T in 1..5, plus tolerances 6..12, 16, 20 with budgets T+1, T+2, T+4 on all trajectories with at most two non-rise events, with validation data (also with print frequencies 1, 2 and beyond the budget on a third of them, a quarter each after an earlier learn() call on the same network without / with validation data (which leaves the weights untouched), a third of them at a tiny scale: loss 2^-20 moving in steps of 2^-27, and a third at a large offset: loss 2^20 moving by one unit in the last place per epoch); strictly rising trajectories under epoch budgets of 1000, 65536, i32::MAX-1 and i32::MAX (must stop at epoch T+1; watchdog of 60 s); every E in 1..{} without; the unmodified learn() is driven through each of them and the commanded pattern is re-derived from the returned vector (only matching runs count). Oracle over what learn() returned: len(train)=n; len(val_loss)=len(val_acc)=n (0 and n=E without validation data); stop(e) := e>T and the last T recorded losses strictly increasing is false for every e<n; if n<E then stop(n). States = (epoch, pattern prefix) pairs visited; transitions = epochs run; non-trivial = trajectories with at least one rise", e, e),
         bound: format!("E <= {}, T <= 5; complete", e),
         exhaustive: true,
         assumptions: vec!["stop rule read as in the statement's anchor: the window of the last T recorded validation losses is strictly increasing (T-1 comparisons) and more than T epochs have run".into()],
@@ -104,13 +104,46 @@ pub fn check(case: &Kv, rep: &mut Report) {
             }
         }
     }
-    let res = guard(|| {
-        if with_val {
-            lib.learn(&xr, &tr, Some((&vx, &vt, tol as i32)), 1, epochs as i32, print)
-        } else {
-            lib.learn(&xr, &tr, None, 1, epochs as i32, print)
+    // "budget": the epoch budget handed to learn() when it is larger than the steered trajectory (which is all-rise and
+    // therefore ends in a stop at epoch T+1): budgets up to i32::MAX. A library that fails to stop would run for hours, so
+    // these runs sit in their own thread under a watchdog.
+    let budget: i32 = case.opt("budget").map(|b| b.parse().unwrap()).unwrap_or(epochs as i32);
+    let res = if case.opt("budget").is_some() {
+        struct Boxed(neurons::network::Network, Vec<Tensor>, Vec<Tensor>, Tensor, Tensor);
+        unsafe impl Send for Boxed {}
+        let boxed = Boxed(lib, xs.clone(), ts.clone(), xv.clone(), tv.clone());
+        let (tx, rx) = std::sync::mpsc::channel();
+        let tolv = tol as i32;
+        std::thread::spawn(move || {
+            let mut b = boxed;
+            let r = guard(|| {
+                let xr: Vec<&Tensor> = b.1.iter().collect();
+                let tr: Vec<&Tensor> = b.2.iter().collect();
+                let (vx, vt) = (vec![&b.3], vec![&b.4]);
+                b.0.learn(&xr, &tr, Some((&vx, &vt, tolv)), 1, budget, None)
+            });
+            let _ = tx.send(r);
+        });
+        match rx.recv_timeout(std::time::Duration::from_secs(60)) {
+            Ok(r) => r,
+            Err(_) => {
+                rep.violate(
+                    "C13 continues past the first epoch at which the stop rule holds",
+                    format!("tolerance {}, budget {}: a strictly rising validation loss should stop training after epoch {}; learn() is still running after 60 s", tol, budget, tol + 1),
+                    case,
+                );
+                return;
+            }
         }
-    });
+    } else {
+        guard(|| {
+            if with_val {
+                lib.learn(&xr, &tr, Some((&vx, &vt, tol as i32)), 1, epochs as i32, print)
+            } else {
+                lib.learn(&xr, &tr, None, 1, epochs as i32, print)
+            }
+        })
+    };
     let (train, val, acc) = match res {
         Ok(x) => x,
         Err(e) => {
@@ -120,8 +153,17 @@ pub fn check(case: &Kv, rep: &mut Report) {
     };
     let n = train.len();
     rep.transitions += n as u64;
-    if n == 0 || n > epochs {
-        rep.violate("C13 number of training-loss entries", format!("{} entries for an epoch budget of {}", n, epochs), case);
+    if n == 0 || n as i64 > budget as i64 {
+        rep.violate("C13 number of training-loss entries", format!("{} entries for an epoch budget of {}", n, budget), case);
+        return;
+    }
+    if n > epochs {
+        // only with a budget beyond the steered (all-rise) trajectory: the stop rule held at its end
+        rep.violate(
+            "C13 continues past the first epoch at which the stop rule holds",
+            format!("tolerance {}, budget {}: {} epochs ran although the validation loss rose strictly for the first {}", tol, budget, n, epochs),
+            case,
+        );
         return;
     }
     if !with_val {
@@ -174,10 +216,10 @@ pub fn check(case: &Kv, rep: &mut Report) {
             return;
         }
     }
-    if n < epochs && !stop(n) {
+    if (n as i64) < budget as i64 && !stop(n) {
         rep.violate(
             "C13 stops although the stop rule does not hold",
-            format!("tolerance {}, validation losses {:?}: stopped after epoch {} of {}", tol, val, n, epochs),
+            format!("tolerance {}, validation losses {:?}: stopped after epoch {} of {}", tol, val, n, budget),
             case,
         );
     }
@@ -219,6 +261,12 @@ pub fn cases(ctx: &Ctx) -> Vec<Kv> {
                     }
                 }
             }
+        }
+    }
+    // epoch budgets far beyond the trajectory: a strictly rising loss must stop training at epoch T+1 whatever the budget
+    for tol in [2usize, 3, 5] {
+        for budget in [1000i64, 65536, 2147483646, 2147483647] {
+            out.push(Kv::new().put("epochs", tol + 1).put("tol", tol).put("val", 1).put("pattern", "r".repeat(tol)).put("budget", budget));
         }
     }
     // beyond the small bound: tolerances 6..=12 (and 16, 20) with budgets just above them; trajectories with at most two
